@@ -228,6 +228,8 @@ func c08Parse(resp []byte, refresh bool) *c08Served {
 type c08World struct {
 	ctl *DnsController
 	adv int64 // virtual = real + adv
+	// entry whose refresh slot the latest stale hit of a key claimed (what the refresh started for it carries)
+	claimed map[string]*DnsCache
 }
 
 func (w *c08World) vnow() int64 { return time.Now().UnixNano() + w.adv }
@@ -405,7 +407,14 @@ func c08Run(cs c08Case) (res c08Result) {
 			// a question read from the wire is always fully qualified; the key is computed from the raw text above
 			msg.Question = []dnsmessage.Question{{Name: dnsmessage.Fqdn(op.Name), Qtype: op.Qtype, Qclass: dnsmessage.ClassINET}}
 			lo := w.vnow()
-			resp, refresh := w.ctl.LookupDnsRespCache_(msg, key, false)
+			resp, claimedEntry := c08LookupClaim(w.ctl, msg, key) // shim over the lookup (tools/c08.py), see c08_shim
+			refresh := claimedEntry != nil
+			if refresh {
+				if w.claimed == nil {
+					w.claimed = map[string]*DnsCache{}
+				}
+				w.claimed[key] = claimedEntry
+			}
 			st.NowHi = w.vnow()
 			st.Now = lo
 			if e != nil {
@@ -423,7 +432,7 @@ func c08Run(cs c08Case) (res c08Result) {
 			// the real function with the Reject index, which returns before any network use).
 			w.moveTo(op, key)
 			lo := w.vnow()
-			w.ctl.backgroundRefresh(key, &dnsmessage.Msg{}, nil, consts.DnsRequestOutboundIndex_Reject, nil)
+			c08BackgroundRefresh(w.ctl, w.claimed[key], key)
 			st.Now, st.NowHi = lo, w.vnow()
 		case "reload":
 			w.moveTo(op, key)
@@ -437,6 +446,7 @@ func c08Run(cs c08Case) (res c08Result) {
 			}
 			_ = old.Close()
 			w.ctl = nc
+			w.claimed = nil // the new generation holds clones: no old claim refers to any of its entries
 			nc.RestoreReloadCache(entries, nil, time.Now())
 			st.Now, st.NowHi = lo, w.vnow()
 		case "reuse":
